@@ -87,6 +87,22 @@ def run(ctx):
         events.append({"kind": "rt", "M": M, "bits": bits, "out": data(dec)}); meta.append(("rt", M, f, "random"))
         events.append({"kind": "dec", "M": M, "slots": data(enc), "out": data(dec)}); meta.append(("dec", M, f, "random"))
         ctx.case(("long", M, f, lenclass(L, k)))
+    # ---- orders beyond one byte of symbol value: round trip, exactly one ON slot per symbol at the big-endian position
+    for M in (512, 1024, 4096) + ((65536,) if ctx.thorough else ()):
+        k = M.bit_length() - 1
+        for rep in range(3):
+            L = k * rnd.choice([1, 4, 9]) + rnd.choice([0, 1, k - 1])
+            bits = [rnd.randrange(2) for _ in range(L)]
+            f = rnd.choice(fnames)
+            enc = guarded(PPM_ENCODER, forms(bits)[f], M)
+            dec = guarded(PPM_DECODER, enc, M)
+            events.append({"kind": "rt", "M": M, "bits": bits, "out": data(dec)}); meta.append(("rt", M, f, "large-order"))
+            e_ = np.asarray(enc.data).reshape(-1, M)
+            pos = [int(np.flatnonzero(r_)[0]) if r_.sum() == 1 else -1 for r_ in e_]
+            want = [int("".join(map(str, bits[i * k:(i + 1) * k])), 2) for i in range(L // k)]
+            if pos != want:
+                ctx.violation(f"enc:M={M}:position", f"PPM_ENCODER order {M}: ON positions {pos[:6]} differ from the big-endian values {want[:6]}", {"M": M, "bits": bits})
+            ctx.case(("large-order", M, f))
     # ---- HDD: every slot pattern up to 12 (16) slots, M <= 8, several numpy seeds
     maxs = 16 if ctx.thorough else 12
     seeds = [0, 1, 2, 3] if ctx.thorough else [0, 1]
